@@ -312,6 +312,10 @@ class RestAPI(object):
                     "Message body {} does not contain valid JSON".format(data)
                 )
 
+            if not isinstance(params, dict):
+                # Every action takes its arguments from the members of a JSON object.
+                return aws_error("SerializationException"), 400
+
             # ------------------------------------------------------------------
 
             """
@@ -353,7 +357,7 @@ class RestAPI(object):
 
                 # Get State Machine type (STANDARD or EXPRESS) if supplied
                 type = params.get("type", "STANDARD")
-                if type not in {"STANDARD", "EXPRESS"}:
+                if not isinstance(type, str) or type not in {"STANDARD", "EXPRESS"}:
                     self.logger.error(
                         "RestAPI CreateStateMachine: State Machine type {} "
                         "is not supported".format(type)
@@ -381,7 +385,8 @@ class RestAPI(object):
                 character limit described in the CreateStateMachine API page.
                 https://docs.aws.amazon.com/step-functions/latest/apireference/API_CreateStateMachine.html
                 """
-                if len(definition) == 0 or len(definition) > MAX_STATE_MACHINE_LENGTH:
+                if (not isinstance(definition, str) or len(definition) == 0
+                        or len(definition) > MAX_STATE_MACHINE_LENGTH):
                     self.logger.error(
                         "RestAPI CreateStateMachine: Invalid definition size for State Machine '{}'.".format(name)
                     )
@@ -431,11 +436,18 @@ class RestAPI(object):
                 https://docs.aws.amazon.com/AmazonCloudWatch/latest/logs/iam-access-control-overview-cwl.html
                 """
                 logging_configuration = params.get("loggingConfiguration", {})
+                if not isinstance(logging_configuration, dict):
+                    self.logger.error(
+                        "RestAPI CreateStateMachine: Invalid logging configuration for State Machine '{}'.".format(name)
+                    )
+                    return aws_error("InvalidLoggingConfiguration"), 400
+
                 # Explicitly set default to OFF if not present in request.
                 logging_level = logging_configuration.get("level", "OFF")
                 logging_configuration["level"] = logging_level
 
-                if logging_level not in {"OFF", "ALL", "ERROR", "FATAL"}:
+                if (not isinstance(logging_level, str)
+                        or logging_level not in {"OFF", "ALL", "ERROR", "FATAL"}):
                     self.logger.error(
                         "RestAPI CreateStateMachine: Invalid logging configuration for State Machine '{}'.".format(name)
                     )
@@ -670,7 +682,8 @@ class RestAPI(object):
                     character limit described in the UpdateStateMachine API page.
                     https://docs.aws.amazon.com/step-functions/latest/apireference/API_UpdateStateMachine.html
                     """
-                    if len(definition) == 0 or len(definition) > MAX_STATE_MACHINE_LENGTH:
+                    if (not isinstance(definition, str) or len(definition) == 0
+                            or len(definition) > MAX_STATE_MACHINE_LENGTH):
                         self.logger.error(
                             "RestAPI UpdateStateMachine: Invalid definition size for State Machine '{}'.".format(state_machine_arn)
                         )
@@ -726,11 +739,18 @@ class RestAPI(object):
                 """
                 logging_configuration = params.get("loggingConfiguration", {})
                 if logging_configuration:
+                    if not isinstance(logging_configuration, dict):
+                        self.logger.error(
+                            "RestAPI UpdateStateMachine: Invalid logging configuration for State Machine '{}'.".format(state_machine_arn)
+                        )
+                        return aws_error("InvalidLoggingConfiguration"), 400
+
                     # Explicitly set default to OFF if not present in request.
                     logging_level = logging_configuration.get("level", "OFF")
                     logging_configuration["level"] = logging_level
 
-                    if logging_level not in {"OFF", "ALL", "ERROR", "FATAL"}:
+                    if (not isinstance(logging_level, str)
+                            or logging_level not in {"OFF", "ALL", "ERROR", "FATAL"}):
                         self.logger.error(
                             "RestAPI CreateStateMachine: Invalid logging configuration for State Machine '{}'.".format(state_machine_arn)
                         )
@@ -838,7 +858,7 @@ class RestAPI(object):
                 quota described in Stepfunction Quotas page.
                 https://docs.aws.amazon.com/step-functions/latest/dg/limits.html
                 """
-                if len(input) > MAX_DATA_LENGTH:
+                if not isinstance(input, str) or len(input) > MAX_DATA_LENGTH:
                     self.logger.error(
                         "RestAPI StartExecution: input size for execution '{}' exceeds "
                         "the maximum number of characters service limit.".format(name)
@@ -1164,6 +1184,9 @@ class RestAPI(object):
                     return aws_error("StateMachineDoesNotExist"), 400
 
                 status_filter = params.get("statusFilter")
+                if status_filter and not isinstance(status_filter, str):
+                    status_filter = None
+
                 if status_filter and status_filter not in {
                     "RUNNING",
                     "SUCCEEDED",
